@@ -163,6 +163,15 @@ func EcKeygen(pattern string, n, t int, seed int64) protomc.Scenario {
 		Cfg: netrun.Config{Proto: netrun.EcdsaKeygen, Keys: KeySet(pattern, n, ref.Secp256k1), Threshold: t, Seed: seed, Label: pattern, PreParams: fix.PreParams()}}
 }
 
+// EcKeygenNoProofs: the same with the optional proofs switched off (SetNoProofMod / SetNoProofFac, for peers
+// that run an older version): the result must be the same consistent key data.
+func EcKeygenNoProofs(pattern string, n, t int, seed int64, noMod, noFac bool) protomc.Scenario {
+	sc := EcKeygen(pattern, n, t, seed)
+	sc.Name += fmt.Sprintf(",noProofMod=%v,noProofFac=%v", noMod, noFac)
+	sc.Cfg.NoProofMod, sc.Cfg.NoProofFac = noMod, noFac
+	return sc
+}
+
 // EdSigning: signers = indices into the generated key.
 func EdSigning(pattern string, n, t int, signers []int, msg *big.Int, fullLen int, seed int64) protomc.Scenario {
 	all := EdKey(pattern, n, t, seed)
